@@ -344,12 +344,18 @@ Definition wf_geno : bool :=
 Definition wf : bool := wf_reads && wf_ped && wf_geno.
 
 (* 32-bit guard: every intermediate value of the solver is bounded by
-   total weight + largest genotype costs + (number of transmission bits) * total recombination cost *)
+   total weight + largest genotype costs + (number of transmission bits) * total recombination cost,
+   summed column by column (values_bounded in proofs/PedMECBounds.v) *)
 Definition gl_max (g : gspec) : nat := if g is GL a b c then maxn a (maxn b c) else 0.
-Definition total_bound : nat :=
-  foldr addn 0 [seq foldr addn 0 [seq (if e is Some (_, w) then w else 0) | e <- r_ents r] | r <- i_reads I]
-  + foldr addn 0 [seq foldr addn 0 [seq gl_max g | g <- gs] | gs <- i_geno I]
-  + 2 * ntrios * foldr addn 0 (i_recomb I).
+Definition ent_weight (e : entry) : nat := if e is Some (_, w) then w else 0.
+Definition colbound (c : nat) : nat :=
+  sumn [seq ent_weight se.2 | se <- colents c]
+  + sumn [seq gl_max (nth (GT 0) (nth [::] (i_geno I) c) i) | i <- iota 0 (i_nind I)]
+  + 2 * ntrios * recomb c.
+Definition total_bound : nat := sumn [seq colbound c | c <- iota 0 (i_ncols I)].
+(* every finite entry of a table is <= B *)
+Definition table_le (B : nat) (tb : table) : bool :=
+  all (fun e => all (fun v => if v is Some a then a <= B else true) e.2) tb.
 End Inst.
 
 Definition no_overflow (I : inst) : bool :=      (* total_bound + 1 < 2^31 *)
